@@ -221,7 +221,32 @@ func (d *Drv) Driver() driver.Driver { return d }
 
 type conn struct{ p *Plan }
 
-func (c *conn) Prepare(q string) (driver.Stmt, error) { return nil, errors.New("c14: Prepare not used") }
+// Prepare (a prepared statement inside the transaction): preparing is not logged, executing it is logged and
+// faulted exactly like a direct statement.
+func (c *conn) Prepare(q string) (driver.Stmt, error) {
+	parseStmt(q)
+	return &stmt{c: c, q: q}, nil
+}
+
+type stmt struct {
+	c *conn
+	q string
+}
+
+func (s *stmt) Close() error  { return nil }
+func (s *stmt) NumInput() int { return -1 }
+func (s *stmt) Exec([]driver.Value) (driver.Result, error) {
+	return s.c.ExecContext(context.Background(), s.q, nil)
+}
+func (s *stmt) Query([]driver.Value) (driver.Rows, error) {
+	return s.c.QueryContext(context.Background(), s.q, nil)
+}
+func (s *stmt) ExecContext(ctx context.Context, a []driver.NamedValue) (driver.Result, error) {
+	return s.c.ExecContext(ctx, s.q, a)
+}
+func (s *stmt) QueryContext(ctx context.Context, a []driver.NamedValue) (driver.Rows, error) {
+	return s.c.QueryContext(ctx, s.q, a)
+}
 
 func (c *conn) Close() error { return nil }
 
@@ -375,10 +400,12 @@ func genStmts(r *verifh.Rng, n int, faultAt int, faultLetter byte, checked bool)
 		x := r.Intn(100)
 		if checked { // a body that looks at every error, as real code does
 			switch {
-			case x < 60:
+			case x < 50:
 				b[i] = 'X'
-			case x < 90:
+			case x < 78:
 				b[i] = 'Y'
+			case x < 90:
+				b[i] = 'p'
 			case x < 94:
 				b[i] = 'x'
 			default:
@@ -389,8 +416,10 @@ func genStmts(r *verifh.Rng, n int, faultAt int, faultLetter byte, checked bool)
 		switch {
 		case x < 30:
 			b[i] = 'x'
-		case x < 50:
+		case x < 46:
 			b[i] = 'X'
+		case x < 52:
+			b[i] = 'p'
 		case x < 65:
 			b[i] = 'q'
 		case x < 80:
@@ -458,7 +487,7 @@ func GenOp(r *verifh.Rng, apis, classes []string, maxLen int, allowReject bool) 
 			n = 1
 		}
 		faultAt = r.Intn(n)
-		letter = "fgnN"[r.Intn(4)]
+		letter = "fgnNP"[r.Intn(5)]
 	case x < 50: // the body returns its own error after all statements
 		end = "err:" + classes[r.Intn(len(classes))]
 	case x < 68: // the body panics after all statements
@@ -533,7 +562,7 @@ func Exhaustive(api string, maxLen int) []string {
 					add(true, base, end, c, rb)
 				}
 				for k := 0; k < n; k++ {
-					for _, l := range []string{"f", "g", "n", "i", "N"} {
+					for _, l := range []string{"f", "g", "n", "i", "N", "P"} {
 						add(true, base[:k]+l+base[k+1:], "ok", c, rb)
 					}
 				}
@@ -563,7 +592,7 @@ func Exhaustive(api string, maxLen int) []string {
 		for k := 0; k <= n; k++ {
 			for _, kind := range []string{"c", "d"} {
 				cancel := kind + fmt.Sprint(k)
-				for _, l := range []string{"X", "x", "Y"} {
+				for _, l := range []string{"X", "x", "Y", "p"} {
 					for _, end := range []string{"ok", "err:plain", "panic"} {
 						addX(true, 0, rep(l, n), end, "ok", "ok", cancel)
 						addX(true, 0, rep(l, n), end, "fail", "fail", cancel)
@@ -592,6 +621,7 @@ func Exhaustive(api string, maxLen int) []string {
 type Sess struct {
 	Exec    func(q string) error
 	Query   func(q string) error
+	PExec   func(q string) error // Prepare inside the transaction, execute, close
 	Nest    func() error // NewSqlConnFromSession / WithSession … Transact
 	NestCtx func() error // … TransactCtx
 	// End ends the context the body was given (deadline: with DeadlineExceeded, else Canceled);
@@ -720,6 +750,10 @@ func RunOp(op []string, h Hooks) string {
 				e, prop = s.Exec(fmt.Sprintf("c14 %d ok", i)), true
 			case 'Y':
 				e, prop = s.Query(fmt.Sprintf("c14 %d ok", i)), true
+			case 'p':
+				e, prop = s.PExec(fmt.Sprintf("c14 %d ok", i)), true
+			case 'P':
+				e, prop = s.PExec(fmt.Sprintf("c14 %d fail", i)), true
 			case 'N':
 				e, prop = s.NestCtx(), true
 			case 'M':
@@ -741,7 +775,7 @@ func RunOp(op []string, h Hooks) string {
 			default:
 				panic("c14 harness: bad statement letter")
 			}
-			if prop && e == nil && (stmts[i] == 'X' || stmts[i] == 'Y') {
+			if prop && e == nil && (stmts[i] == 'X' || stmts[i] == 'Y' || stmts[i] == 'p') {
 				continue // `if err != nil { return err }` on a statement that worked
 			}
 			if prop {
